@@ -53,13 +53,13 @@ Proof. split; reflexivity. Qed.
 (* interactivity header: fg iff on-demand *)
 Theorem C15_interactivity :
   forall cfg b, nth_error (headers_of cfg b) 2 =
-    Some (s2b "X-Goog-Update-Interactivity", match p_source (b_params b) with OnDemand => s2b "fg" | ScheduledTask => s2b "bg" end).
+    Some (s2b "x-goog-update-interactivity", match p_source (b_params b) with OnDemand => s2b "fg" | ScheduledTask => s2b "bg" end).
 Proof. intros. reflexivity. Qed.
 
 (* first-app-id header *)
 Theorem C15_app_id_header :
   forall cfg b e r, b_entries b = e :: r ->
-    nth_error (headers_of cfg b) 3 = Some (s2b "X-Goog-Update-AppId", a_id (e_app e)).
+    nth_error (headers_of cfg b) 3 = Some (s2b "x-goog-update-appid", a_id (e_app e)).
 Proof. intros cfg b e r H. unfold headers_of. rewrite H. reflexivity. Qed.
 
 (* event numeric codes are the protocol's (pinned; also regenerated from request.rs into gen/Anchors.v) *)
